@@ -243,6 +243,8 @@ impl UnixTerminal {
         let deadline = Instant::now() + Duration::from_secs(3);
         loop {
             match self.poll(Some(Duration::from_secs(1))) {
+                // a failing copy of the output must not keep the epilogue from the terminal
+                Err(_) if self.tee.take().is_some() => {}
                 Err(_) | Ok(Some(TerminalEvent::DeviceAttrs(_)) | None) => break,
                 _ if Instant::now() >= deadline => break,
                 _ => {}
